@@ -545,6 +545,39 @@ impl<'a> Gen<'a> {
             }
             return;
         }
+        if self.p.cleaner_idioms && HAS_CLEAN && HAS_WEAK && self.r.chance(1, 5) && self.sh.objects + 4 <= self.p.max_objects {
+            // a garbage ring whose members' cleaning actions upgrade weak pointers to the other members: the actions run in
+            // a plain drop of the cleaner's private map nested in the collector's drop phase, some before and some after the
+            // destruction of the member they ask for
+            let k = 2 + self.r.below(2) as i64;
+            for _ in 0..k {
+                let t = self.tmpl();
+                self.push(Op::new(O::New, &[]).with_tmpl(t));
+            }
+            let w0 = self.sh.weaks as i64;
+            for i in 0..k {
+                self.push(Op::new(O::Downgrade, &[base + i]));
+            }
+            for i in 0..k {
+                self.push(Op::new(O::SetSlot, &[base + i, 0, base + (i + 1) % k]));
+            }
+            for i in 0..k {
+                for _ in 0..1 + self.r.below(2) {
+                    let j = w0 + self.r.below(k as u64) as i64;
+                    let code = if self.r.chance(1, 2) { MiniCode::WeakToRoot } else { MiniCode::WeakToDrop };
+                    self.push(Op::new(O::Register, &[base + i, -1]).with_script(vec![Mini::new(code, &[j])]));
+                }
+            }
+            let first = self.r.below(k as u64) as i64;
+            for i in 0..k {
+                self.push(Op::new(O::Drop, &[base + (first + i) % k]));
+            }
+            self.push(Op::new(O::Collect, &[]));
+            for i in 0..k {
+                self.push(Op::new(O::UpgradeDrop, &[w0 + i]));
+            }
+            return;
+        }
         if self.p.unwrap_idioms && self.r.chance(2, 5) && self.sh.objects + 3 <= self.p.max_objects {
             // try_unwrap of an object with history: buffered by an earlier clone, weakly referenced, made by new_cyclic,
             // member of a two-object chain; first refused because a second pointer exists, then granted, then the weak
